@@ -612,9 +612,11 @@ func (h *hist) spendSome(uxs coin.UxArray, headTime uint64, variant int, keepOwn
 }
 
 // conflictPool puts conflicting or sweeping pending transactions into the pool:
-//   0: 2-3 transactions all spending the SAME output of an address that has further outputs
-//   1: pending transactions spending ALL outputs of an address (one per output, or one for all)
-//   2: an address receiving (change back to it) while two pending transactions spend one of its outputs
+//
+//	0: 2-3 transactions all spending the SAME output of an address that has further outputs
+//	1: pending transactions spending ALL outputs of an address (one per output, or one for all)
+//	2: an address receiving (change back to it) while two pending transactions spend one of its outputs
+//
 // When no address has two spendable outputs, a block first splits one output into three.
 func (h *hist) conflictPool() error {
 	used, err := h.poolInputs()
